@@ -423,13 +423,28 @@ std::vector<Node::ControlEndpoint> Node::preferred_control_endpoints() const {
         }
     };
 
+    // Automatically discovered endpoints obey the auto-advertise mode and the private-address filter,
+    // exactly like the entries refresh_advertised_endpoints() publishes.
+    const bool auto_publish_off = config_.advertise_auto_mode == Config::AdvertiseAutoMode::Off;
+    const bool auto_publish_withheld = config_.advertise_auto_mode == Config::AdvertiseAutoMode::Warn &&
+                                       config_.auto_advertise_conflict;
+    auto append_auto = [&](const std::string& host, std::uint16_t port) {
+        if (auto_publish_off || auto_publish_withheld) {
+            return;
+        }
+        if (!config_.advertise_allow_private && network::is_private_or_reserved_host(host)) {
+            return;
+        }
+        append(host, port, false);
+    };
+
     auto append_self_endpoint = [&]() {
         const auto self = self_endpoint();
         if (self.empty()) {
             return;
         }
         if (const auto parsed = parse_endpoint(self)) {
-            append(parsed->first, parsed->second, false);
+            append_auto(parsed->first, parsed->second);
         }
     };
 
@@ -449,7 +464,7 @@ std::vector<Node::ControlEndpoint> Node::preferred_control_endpoints() const {
 
     for (const auto& candidate : config_.auto_advertise_candidates) {
         const auto port = candidate.port != 0 ? candidate.port : fallback_port;
-        append(candidate.host, port, false);
+        append_auto(candidate.host, port);
     }
 
     if (transport_port != 0) {
